@@ -143,13 +143,30 @@ type worker struct {
 }
 
 func newWorker(obsmax int) *worker {
-	return &worker{res: newResult(), aux: auxStats{PanicMsgs: map[string]int{}}, resv: map[int]*reservoir{1: {max: obsmax}, 2: {max: obsmax}, 3: {max: obsmax}}}
+	return &worker{res: newResult(), aux: auxStats{PanicMsgs: map[string]int{}, PanicByClass: map[string]int{}}, resv: map[int]*reservoir{1: {max: obsmax}, 2: {max: obsmax}, 3: {max: obsmax}}}
 }
 
+func absSize(m *Mismatch) int {
+	b, _ := json.Marshal(m.Abstract)
+	return len(b)
+}
+
+// report keeps, per signature, the three smallest witnesses this worker has seen.
 func (w *worker) report(m Mismatch) {
 	w.res.MismatchCounts[m.Signature]++
-	if w.res.MismatchCounts[m.Signature] <= 3 && len(w.res.Mismatches) < 200 {
+	n, worst, worstSize := 0, -1, -1
+	for i := range w.res.Mismatches {
+		if w.res.Mismatches[i].Signature == m.Signature {
+			n++
+			if sz := absSize(&w.res.Mismatches[i]); sz > worstSize {
+				worst, worstSize = i, sz
+			}
+		}
+	}
+	if n < 3 {
 		w.res.Mismatches = append(w.res.Mismatches, m)
+	} else if absSize(&m) < worstSize {
+		w.res.Mismatches[worst] = m
 	}
 }
 
@@ -689,6 +706,7 @@ func sortedTree(m map[string]ObsNode) []ObsNode {
 type auxStats struct {
 	Runs, Panics, WeightMismatch, Errors int
 	PanicMsgs                            map[string]int
+	PanicByClass                         map[string]int
 	FirstPanicCase, FirstMismatchCase    interface{}
 }
 
@@ -728,6 +746,23 @@ func (w *worker) auxMergeV2(cs *Case, c *Concrete, pds []*wmodel.ProfileData, or
 		if strings.HasPrefix(err.Error(), "panic") {
 			w.aux.Panics++
 			w.aux.PanicMsgs[err.Error()]++
+			cl := ""
+			for _, i := range order {
+				for _, sm := range cs.Profs[i] {
+					if len(sm.Stack) == 0 && !strings.Contains(cl, "empty_stack") {
+						cl += "+empty_stack"
+					}
+					for _, a := range sm.Stack {
+						if c.Names[a] == noLine && !strings.Contains(cl, "lineless") {
+							cl += "+lineless_location"
+						}
+					}
+				}
+			}
+			if cl == "" {
+				cl = "neither"
+			}
+			w.aux.PanicByClass[cl]++
 			if w.aux.FirstPanicCase == nil {
 				w.aux.FirstPanicCase = map[string]interface{}{"profs": cs.Profs, "concrete": c.display(), "err": err.Error()}
 			}
@@ -1251,7 +1286,7 @@ func main() {
 	}
 	// merge the workers
 	res := newResult()
-	aux := auxStats{PanicMsgs: map[string]int{}}
+	aux := auxStats{PanicMsgs: map[string]int{}, PanicByClass: map[string]int{}}
 	resv := map[int]*reservoir{}
 	for _, w := range workers {
 		r := w.res
@@ -1284,6 +1319,9 @@ func main() {
 		for k, v := range w.aux.PanicMsgs {
 			aux.PanicMsgs[k] += v
 		}
+		for k, v := range w.aux.PanicByClass {
+			aux.PanicByClass[k] += v
+		}
 		if aux.FirstPanicCase == nil {
 			aux.FirstPanicCase = w.aux.FirstPanicCase
 		}
@@ -1298,7 +1336,14 @@ func main() {
 			resv[k].seen += r.seen
 		}
 	}
-	sort.SliceStable(res.Mismatches, func(i, j int) bool { return res.Mismatches[i].Case < res.Mismatches[j].Case })
+	// smallest witnesses first
+	size := func(m Mismatch) int { b, _ := json.Marshal(m.Abstract); return len(b) }
+	sort.SliceStable(res.Mismatches, func(i, j int) bool {
+		if si, sj := size(res.Mismatches[i]), size(res.Mismatches[j]); si != sj {
+			return si < sj
+		}
+		return res.Mismatches[i].Case < res.Mismatches[j].Case
+	})
 	kept := map[string]int{}
 	var mm []Mismatch
 	for _, m := range res.Mismatches {
